@@ -398,7 +398,7 @@ def feasible_kinds(allowed, *, N, K, ortho, ppp, d):
 
 @st.composite
 def tf_st(draw, allowed, *, N, K, d, F, ortho, ppp, per_frame=True, max_kinds=4, lattice_per_frame=True, first=None,
-          rng=None):
+          rng=None, force=None):
     """A symmetry transformation: 1..max_kinds components from `allowed` (max_kinds >= 4: occasionally EVERY applicable
     one, the full chain translation o image shift o relabelling o axis permutation o ...), each far from the identity
     by construction.  rng: numpy Generator for the bulk numbers (per-particle shifts, permutation) of large systems.
@@ -431,6 +431,11 @@ def tf_st(draw, allowed, *, N, K, d, F, ortho, ppp, per_frame=True, max_kinds=4,
     elif extra:
         order = draw(st.permutations(range(len(others))))
         kinds += [others[i] for i in order[:extra]]
+    # block-boundary sizes (rng given): a particle lost or misplaced at a block edge is an index-dependent slip, and
+    # relabelling is the transformation that sees it whatever else is applied
+    for k in (("perm",) if (force is None and rng is not None) else (force or ())):
+        if k in feas and k not in kinds:
+            kinds.append(k)
     tf = {"kinds": kinds, "R": None, "axes": None, "s": 1.0, "tfrac": np.zeros((F, d)), "n": np.zeros((F, N, d)),
           "perm": np.arange(N), "sigma": np.arange(1, K + 1), "movebox": False, "angle": 0.0, "lat": None, "far": False}
     if "rotate" in kinds:
@@ -766,13 +771,22 @@ def integerise(cell):
     return out
 
 
+PLUS_ONE = (33, 51, 65, 101, 129, 201, 257)      # B + 1 / 2B + 1: one particle beyond a full block
+
+
 @st.composite
-def size_st(draw, small, size, boundary_hi=260, large=(480, 1030)):
+def size_st(draw, small, size, boundary_hi=260, large=(480, 1030), share=10):
     """(N, is_bulk): `small` = (lo, hi) drawn entry by entry; size 'mixed' = small with a boundary size in one case of
-    eight; 'boundary' / 'large' = always a block-boundary size (EXTENSION_3 class 1)."""
+    `share`; 'boundary' / 'large' = always a block-boundary size (EXTENSION_3 class 1).  Half of the boundary sizes are
+    of the most telling kind B + 1 / 2B + 1."""
+    if isinstance(size, tuple):          # ("fixed", N): the finite size sweep
+        return int(size[1]), True
     if size == "large":
-        return draw(st.sampled_from(boundary_sizes(*large))), True
-    if size == "boundary" or (size == "mixed" and chance(draw, 8)):
+        return draw(pick(boundary_sizes(*large))), True
+    if size == "boundary" or (size == "mixed" and chance(draw, share)):
+        plus = [n for n in PLUS_ONE if n <= boundary_hi]
+        if draw(st.booleans()):
+            return draw(pick(plus)), True
         return draw(pick(boundary_sizes(31, boundary_hi))), True
     return draw(st.integers(*small)), False
 
@@ -824,3 +838,19 @@ def same_again(name, first, second, rtol=1e-12):
         require(bool(np.all(np.abs(a[fin] - b[fin]) <= rtol * max(scale, 1e-300) + 1e-300)),
                 lambda: f"{name}: second evaluation on the same object differs from the first by "
                 f"{float(np.abs(a[fin] - b[fin]).max()):.3e} (scale {scale:.3e})")
+
+
+def draw_one(strategy, seed_, k=3):
+    """k-th example of a strategy under a fixed Hypothesis seed (the first one is the all-minimal example): how the
+    finite size sweep builds its cases - every number still comes from a Hypothesis strategy."""
+    import hypothesis
+    out = []
+
+    @hypothesis.seed(int(seed_))
+    @hypothesis.settings(max_examples=k, database=None, deadline=None, phases=[hypothesis.Phase.generate],
+                         suppress_health_check=list(hypothesis.HealthCheck))
+    @hypothesis.given(strategy)
+    def collect(c):
+        out.append(c)
+    collect()
+    return out[-1]
